@@ -120,7 +120,94 @@ def cfg_C13(tier, rng):
                              family=lambda r, kk: gc.family_f3(r, kk, nmin=4, nmax=8, time_guards=True)))]
 
 
-CONFIGS = {'C01': cfg_C01, 'C02': cfg_C02, 'C03': cfg_C03, 'C04': cfg_C04, 'C05': cfg_C05,
+def with_contracts(charts, rng, dens=0.6):
+    """Put contract conditions on states and transitions of skeleton charts."""
+    out = []
+    for c in charts:
+        c = json.loads(json.dumps(c))
+        for s_ in range(c['n']):
+            if rng.random() < dens:
+                c['spre'][s_] = rng.choice([0, 1, 2])
+                c['spost'][s_] = rng.choice([0, 1, 2])
+                c['sinv'][s_] = rng.choice([0, 1, 1, 2])
+            if rng.random() < 0.4:
+                c['entry'][s_] = dict(c['entry'][s_], incx=1)
+        for t in c['trans']:
+            if rng.random() < dens / 2:
+                t['pre'], t['post'], t['inv'] = rng.choice([0, 1, 2]), rng.choice([0, 1, 2]), rng.choice([0, 1])
+            if rng.random() < 0.3:
+                t['act'] = dict(t['act'], incx=1)
+        out.append(c)
+    return out
+
+
+def thin(charts, rng, keep_trans=5):
+    """Keep only a few transitions per chart (smaller alphabets, same structures)."""
+    out = []
+    for c in charts:
+        c = json.loads(json.dumps(c))
+        if len(c['trans']) > keep_trans:
+            idx = sorted(rng.sample(range(len(c['trans'])), keep_trans))
+            c['trans'] = [c['trans'][i] for i in idx]
+        evs = sorted({t['ev'] for t in c['trans'] if t['ev']})
+        remap = {e: i + 1 for i, e in enumerate(evs)}
+        for t in c['trans']:
+            if t['ev']:
+                t['ev'] = remap[t['ev']]
+        c['events'] = list(range(1, len(evs) + 2))
+        out.append(c)
+    return out
+
+
+def cfg_C08(tier, rng):
+    k = 90 if tier == QUICK else 800
+    base = thin(_sub(gc.family_f1(4 if tier == QUICK else 5), k, rng), rng, 5)
+    charts = with_contracts(base, rng)
+    rich = gc.family_f3(rng, 10 if tier == QUICK else 80, nmin=3, nmax=5, tmin=3, tmax=5, nev=2,
+                        max_oracle=1, contracts=True)
+    return [dict(name='contracts', charts=charts + rich,
+                 consts=dict(MaxQ=1, MaxCFail=12 if tier == QUICK else 16, MaxLevel=5 if tier == QUICK else 7),
+                 variants=[dict(variant='api')],
+                 random=dict(count=150 if tier == QUICK else 1500, length=14, pfail=0.3,
+                             family=lambda r, kk: gc.family_f3(r, kk, nmin=5, nmax=8, contracts=True)))]
+
+
+def cfg_C09(tier, rng):
+    k = 60 if tier == QUICK else 500
+    base = thin(_sub(gc.family_f1(4 if tier == QUICK else 5), k, rng), rng, 5)
+    charts = with_contracts(base, rng)
+    rich = gc.family_f3(rng, 10 if tier == QUICK else 80, nmin=3, nmax=5, tmin=3, tmax=5, nev=2,
+                        max_oracle=1, contracts=True)
+    tw = dict(rel='ignore', kw=dict(ignore_contract=True))
+    return [dict(name='transparent', charts=charts + rich,
+                 consts=dict(MaxQ=1, MaxLevel=6 if tier == QUICK else 7, Twin='ignore'),
+                 variants=[dict(variant='api', twin=tw)],
+                 random=dict(count=150 if tier == QUICK else 1500, length=14,
+                             family=lambda r, kk: gc.family_f3(r, kk, nmin=5, nmax=8, contracts=True))),
+            dict(name='ignored', charts=charts[:len(charts) // 2] + rich,
+                 consts=dict(MaxQ=1, MaxLevel=5, MaxCFail=3, Opt={'ignore': True, 'metas': True}),
+                 variants=[dict(variant='api', ignore_contract=True)],
+                 random=dict(count=100 if tier == QUICK else 1000, length=14, pfail=0.5,
+                             family=lambda r, kk: gc.family_f3(r, kk, nmin=5, nmax=8, contracts=True)))]
+
+
+def cfg_C10(tier, rng):
+    k = 40 if tier == QUICK else 400
+    base = thin(_sub(gc.family_f1(4 if tier == QUICK else 5), k, rng), rng, 4)
+    rich = gc.family_f3(rng, 8 if tier == QUICK else 60, nmin=3, nmax=5, tmin=3, tmax=5, nev=2, max_oracle=1)
+    return [dict(name='monitor', charts=base + rich,
+                 consts=dict(MaxQ=1, MaxMFail=14 if tier == QUICK else 20, MaxLevel=4 if tier == QUICK else 5),
+                 variants=[dict(variant='api', monitor=True)],
+                 random=dict(count=100 if tier == QUICK else 1000, length=12, pmfail=0.3,
+                             family=lambda r, kk: gc.family_f3(r, kk, nmin=5, nmax=8))),
+            dict(name='nonintrusive', charts=base[:len(base) // 2] + rich,
+                 consts=dict(MaxQ=1, MaxLevel=5 if tier == QUICK else 6),
+                 variants=[dict(variant='api', monitor=True, twin=dict(rel='nomon', kw=dict(monitor=False)))],
+                 random=dict(count=100 if tier == QUICK else 1000, length=14,
+                             family=lambda r, kk: gc.family_f3(r, kk, nmin=5, nmax=8)))]
+
+
+CONFIGS = {'C08': cfg_C08, 'C09': cfg_C09, 'C10': cfg_C10, 'C01': cfg_C01, 'C02': cfg_C02, 'C03': cfg_C03, 'C04': cfg_C04, 'C05': cfg_C05,
            'C06': cfg_C06, 'C13': cfg_C13}
 
 
@@ -164,7 +251,8 @@ def run_stage(prop, tier, seed, stage, rng):
             ci = base + 1 + (i % len(extra))
             h = engine.random_history(rng, allcharts[ci - 1], rd['length'], delays=rd.get('delays', (0,)),
                                       advances=rd.get('advances', ()), params=rd.get('params', (0,)),
-                                      maxq=rd.get('maxq', 3))
+                                      maxq=rd.get('maxq', 3), pfail=rd.get('pfail', 0.0),
+                                      pmfail=rd.get('pmfail', 0.0))
             jobs.append((ci, h, dict(stage['variants'][i % len(stage['variants'])]), True))
     t1 = time.time()
     traces = engine.replay(allcharts, jobs)
